@@ -28,6 +28,7 @@ type trace struct {
 	corsArgs [2][]string
 	schema   []string // SchemaPath seen by each middleware ("path|ok")
 	ctxTags  []string
+	inner    []string // SchemaPath seen by the authenticators and by the handler ("who:path|ok")
 }
 
 type ctxTagKey struct{}
@@ -109,6 +110,14 @@ func modeRoute(c *Ctx) {
 			if tags, ok := ctx.Value(ctxTagKey{}).([]string); ok {
 				tr.ctxTags = tags
 			}
+			if hr := req.MethodByName("HTTP"); hr.IsValid() {
+				if r, ok := hr.Call(nil)[0].Interface().(*http.Request); ok && r != nil {
+					if fn, has := c.Reg.Funcs["SchemaPath"]; has {
+						outs := reflect.ValueOf(fn).Call([]reflect.Value{reflect.ValueOf(r)})
+						tr.inner = append(tr.inner, fmt.Sprintf("handler:%s|%v", outs[0].String(), outs[1].Bool()))
+					}
+				}
+			}
 			return reflect.Value{}
 		}
 	})
@@ -148,6 +157,10 @@ func modeRoute(c *Ctx) {
 		fn := reflect.MakeFunc(ft, func(args []reflect.Value) []reflect.Value {
 			tr.ev = append(tr.ev, "auth")
 			r := args[0].Interface().(*http.Request)
+			if fn, has := c.Reg.Funcs["SchemaPath"]; has && r != nil {
+				outs := reflect.ValueOf(fn).Call([]reflect.Value{reflect.ValueOf(r)})
+				tr.inner = append(tr.inner, fmt.Sprintf("auth:%s|%v", outs[0].String(), outs[1].Bool()))
+			}
 			ok := args[1].String() == "good"
 			if !ok {
 				return []reflect.Value{reflect.Zero(httpReqType), reflect.ValueOf(false)}
@@ -348,6 +361,14 @@ func modeRoute(c *Ctx) {
 				break
 			}
 		}
+		// the template is that of the dispatched request for everything inside the
+		// middlewares as well (whether or not any middleware is installed)
+		for _, sp := range tr.inner {
+			if !strings.HasSuffix(sp, ":"+wantTemplate+"|true") {
+				c.Viol("schema-path", "SchemaPath seen by the authenticator / handler of a dispatched request is not the matched template", in, wantTemplate+"|true", sp)
+				break
+			}
+		}
 		// ---- C05 path parameters
 		if tr.opRuns == 1 {
 			c.checkPathParams(in, wantKey, wantTemplate, segs, tr)
@@ -477,6 +498,43 @@ func modeRoute(c *Ctx) {
 			}
 		}
 		k = origK
+		c.SetField(api, "Middlewares", mws)
+	}
+	// spellings that are other paths: a literal segment in another case, "." and
+	// ".." segments (segments like any other: nothing is cleaned or folded)
+	for _, t := range rr.Templates {
+		base := concreteFor(t.Segs)
+		segs := strings.Split(strings.TrimPrefix(base, "/"), "/")
+		var vars []string
+		for i, sg := range segs {
+			if i < len(t.Segs) && !isVar(t.Segs[i]) && sg != "" && strings.ToUpper(sg) != sg {
+				cp := append([]string{}, segs...)
+				cp[i] = strings.ToUpper(sg)
+				vars = append(vars, "/"+strings.Join(cp, "/"))
+			}
+			ins := append(append(append([]string{}, segs[:i]...), "."), segs[i:]...)
+			vars = append(vars, "/"+strings.Join(ins, "/"))
+			ins2 := append(append(append([]string{}, segs[:i]...), "x", ".."), segs[i:]...)
+			vars = append(vars, "/"+strings.Join(ins2, "/"))
+		}
+		vars = append(vars, base+"/.", base+"/..", strings.ToUpper(base))
+		for _, p := range vars {
+			for m := range t.Methods {
+				serve(m, c.Base+p, true, true, false)
+			}
+		}
+	}
+	// no middleware installed at all: routing, authentication and the template
+	// seen inside stay the same
+	{
+		savedK := k
+		k = 0
+		c.SetField(api, "Middlewares", []func(http.Handler) http.Handler(nil))
+		for _, op := range c.Ops {
+			serve(op.Method, c.Base+c.canonicalPath(op), true, true, false)
+			serve(op.Method, c.Base+c.canonicalPath(op), false, true, false)
+		}
+		k = savedK
 		c.SetField(api, "Middlewares", mws)
 	}
 	// a partly implemented API: operations whose handler field is still nil are
